@@ -15,8 +15,17 @@ class Exec(ExprMixin, SpecMixin, Engine):
 
     # ================================================================ calls
     def ev_Call(self, node, st):
-        if node.keywords and any(k.arg is None for k in node.keywords):
-            raise Unsupported("**kw call")
+        if any(isinstance(a, ast.Starred) for a in node.args) or \
+                any(k.arg is None for k in node.keywords):
+            # pure forwarding f(*args, **kw) of the enclosing function's own
+            # *args/**kw (DESIGN 3.1): bound to the callee's named parameters
+            if "$fwd" not in st.env or len(node.args) != 1 or len(node.keywords) != 1:
+                raise Unsupported("star call that is not pure forwarding")
+            kwd = {n: st.env[n] for n in st.env["$fwd"].x}
+            res = []
+            for s, f in self.ev(node.func, st):
+                res.extend([(s, f)] if f.kind == "exc" else self.apply(s, f, [], kwd))
+            return res
         # type(self)() / type(x)
         fn = node.func
         if isinstance(fn, ast.Name):
@@ -422,7 +431,10 @@ class Exec(ExprMixin, SpecMixin, Engine):
                         self.spec(txt, ctx0, state=pre))
         res = []
         outcomes = [("normal", con.ensures)] + [(e, cl) for e, cl in con.raises.items()]
-        for kind, clauses in outcomes:
+        ret_alts = con.returns if isinstance(con.returns, list) else [con.returns]
+        outcomes = [("normal", con.ensures, ra) for ra in ret_alts] + \
+            [(e, cl, None) for e, cl in con.raises.items()]
+        for kind, clauses, ret_spec in outcomes:
             post = s.copy()
             post.env = dict(env)
             if kind == "normal" or con.ghost.get("raise_modifies", False):
@@ -449,8 +461,10 @@ class Exec(ExprMixin, SpecMixin, Engine):
                     post.alloc = post.alloc + k
             ctx = SpecCtx(pre, post)
             if kind == "normal":
-                r = self.mk_value(post, con.returns, "ret") if con.returns else NONE
+                r = self.mk_value(post, ret_spec, "ret") if ret_spec else NONE
                 post.env["result"] = r
+                for wn in con.ghost.get("witness", {}):
+                    post.env[wn] = mk_int(fresh("wit_" + wn, INT))
             for nm, txt in clauses.items():
                 post.assume(self.spec(txt, ctx, state=post))
             if not self.feasible(post):
